@@ -1,17 +1,780 @@
+// c17: connection descriptions (package dsn).  Tabulates dsn.TagToField on the real structs (-gen) and runs
+// ParseSimple / FormatSimple / ParseURI / FormatURI / Parse of the implementation on generated cases (-out):
+//
+//	fn 1  ParseSimple(text)                      arbitrary text (exhaustive short strings over a hostile alphabet, random)
+//	fn 2  FormatSimple(values)
+//	fn 3  ParseSimple(FormatSimple(values))      values over the documented alphabet
+//	fn 4  ParseURI(FormatURI(values))            strings over full Unicode
+//	fn 5  ParseURI(text), Parse(text)            arbitrary text + structured URIs; net/url's reading of the text is part of the input
+//	fn 6  ParseSimple of structured token lists  all aliases, later-wins, unknown keys, typed values
 package main
 
 import (
 	"flag"
+	"fmt"
+	"math"
+	"net/url"
+	"reflect"
+	"sort"
+	"strconv"
+	"strings"
+	"unicode/utf8"
+
+	"github.com/SAP/go-dblib/dsn"
+	"verifharness/sx"
 )
 
+type val struct {
+	kind int
+	s    string
+	b    bool
+	n    int64
+}
+
+func (v val) tree() sx.T {
+	switch v.kind {
+	case 0:
+		return sx.Text(v.s)
+	case 1:
+		return sx.L{sx.Bool(v.b)}
+	}
+	return sx.I(v.n)
+}
+
+func valsTree(vs []val) sx.T {
+	l := sx.L{}
+	for _, v := range vs {
+		l = append(l, v.tree())
+	}
+	return l
+}
+
+func zeroVals(k int) []val {
+	var vs []val
+	for _, l := range leaves(newStruct(k)) {
+		vs = append(vs, val{kind: l.kind})
+	}
+	return vs
+}
+
+func fill(p interface{}, vs []val) {
+	for i, l := range leaves(p) {
+		switch l.kind {
+		case 0:
+			l.val.SetString(vs[i].s)
+		case 1:
+			l.val.SetBool(vs[i].b)
+		case 2:
+			l.val.SetInt(vs[i].n)
+		}
+	}
+}
+
+func read(p interface{}) []val {
+	var vs []val
+	for _, l := range leaves(p) {
+		v := val{kind: l.kind}
+		switch l.kind {
+		case 0:
+			v.s = l.val.String()
+		case 1:
+			v.b = l.val.Bool()
+		case 2:
+			v.n = l.val.Int()
+		}
+		vs = append(vs, v)
+	}
+	return vs
+}
+
+// guarded call: 0 ok, 2 error, -1 panic
+func class(f func() error) (c int64) {
+	defer func() {
+		if r := recover(); r != nil {
+			c = -1
+		}
+	}()
+	if err := f(); err != nil {
+		return 2
+	}
+	return 0
+}
+
+func outcome(c int64, p interface{}) sx.T {
+	if c != 0 {
+		return sx.L{sx.I(c), sx.L{}}
+	}
+	return sx.L{sx.I(0), valsTree(read(p))}
+}
+
+func parseInto(k int, init []val, f func(p interface{}) error) sx.T {
+	p := newStruct(k)
+	if init != nil {
+		fill(p, init)
+	}
+	c := class(func() error { return f(p) })
+	return outcome(c, p)
+}
+
+// what net/url makes of a string: () on error, else ((user pass)|() hostname port path ((key value)...))
+func urlRec(s string) (sx.T, *url.URL) {
+	u, err := url.Parse(s)
+	if err != nil {
+		return sx.L{}, nil
+	}
+	var user sx.T = sx.L{}
+	if u.User != nil {
+		pw, _ := u.User.Password()
+		user = sx.L{sx.Text(u.User.Username()), sx.Text(pw)}
+	}
+	q := u.Query()
+	var keys []string
+	for key := range q {
+		keys = append(keys, key)
+	}
+	sort.Strings(keys)
+	pairs := sx.L{}
+	for _, key := range keys {
+		for _, v := range q[key] {
+			pairs = append(pairs, sx.L{sx.Text(key), sx.Text(v)})
+		}
+	}
+	return sx.L{user, sx.Text(u.Hostname()), sx.Text(u.Port()), sx.Text(u.Path), pairs}, u
+}
+
+// declared alias -> member index (own reflection walk)
+func declIndex(k int) map[string]int {
+	m := map[string]int{}
+	for i, l := range leaves(newStruct(k)) {
+		m[l.json] = i
+		for _, a := range l.aliases {
+			m[a] = i
+		}
+	}
+	return m
+}
+
+// two different query keys naming one member: the result depends on Go's map iteration order
+func ambiguous(k int, u *url.URL) bool {
+	if u == nil {
+		return false
+	}
+	di := declIndex(k)
+	seen := map[int]bool{}
+	for key := range u.Query() {
+		if i, ok := di[key]; ok {
+			if seen[i] {
+				return true
+			}
+			seen[i] = true
+		}
+	}
+	return false
+}
+
+func validText(s string) bool { return utf8.ValidString(s) }
+
+type gen struct {
+	o       *sx.Out
+	r       *sx.Rng
+	skipped int
+}
+
+func (g *gen) fn1(k int, text string, init []val, tag string) {
+	if init == nil {
+		init = zeroVals(k)
+	}
+	out := parseInto(k, init, func(p interface{}) error { return dsn.ParseSimple(text, p) })
+	g.o.Case(1, sx.L{sx.I(int64(k)), sx.Text(text), valsTree(init)}, out, tag)
+}
+
+func (g *gen) fn23(k int, vs []val, tag string) {
+	p := newStruct(k)
+	fill(p, vs)
+	text := dsn.FormatSimple(p)
+	in := sx.L{sx.I(int64(k)), valsTree(vs)}
+	g.o.Case(2, in, sx.Text(text), tag)
+	g.o.Case(3, in, parseInto(k, nil, func(q interface{}) error { return dsn.ParseSimple(text, q) }), tag)
+}
+
+func (g *gen) fn4(k int, vs []val, tag string) {
+	p := newStruct(k)
+	fill(p, vs)
+	var text string
+	c := class(func() error {
+		var err error
+		text, err = dsn.FormatURI(p)
+		return err
+	})
+	in := sx.L{sx.I(int64(k)), valsTree(vs)}
+	if c != 0 {
+		g.o.Case(4, in, sx.L{sx.L{}, sx.L{sx.I(c), sx.L{}}}, tag+";format-failed")
+		return
+	}
+	rec, _ := urlRec(text)
+	g.o.Case(4, in, sx.L{rec, parseInto(k, nil, func(q interface{}) error { return dsn.ParseURI(text, q) })}, tag)
+}
+
+func (g *gen) fn5(k int, text string, tag string) {
+	rec, u := urlRec(text)
+	if ambiguous(k, u) {
+		g.skipped++
+		return
+	}
+	ou := parseInto(k, nil, func(p interface{}) error { return dsn.ParseURI(text, p) })
+	op := parseInto(k, nil, func(p interface{}) error { return dsn.Parse(text, p) })
+	g.o.Case(5, sx.L{sx.I(int64(k)), sx.Text(text), rec}, sx.L{ou, op}, tag)
+}
+
+type tok struct {
+	key   string
+	style int // 0 bare, 1 "..", 2 '..'
+	value string
+}
+
+func (t tok) text() string {
+	switch t.style {
+	case 1:
+		return t.key + `="` + t.value + `"`
+	case 2:
+		return t.key + `='` + t.value + `'`
+	}
+	return t.key + "=" + t.value
+}
+
+func (g *gen) fn6(k int, init []val, toks []tok, tag string) {
+	if init == nil {
+		init = zeroVals(k)
+	}
+	var parts []string
+	tl := sx.L{}
+	for _, t := range toks {
+		parts = append(parts, t.text())
+		tl = append(tl, sx.L{sx.Text(t.key), sx.I(int64(t.style)), sx.Text(t.value)})
+	}
+	text := strings.Join(parts, " ")
+	out := parseInto(k, init, func(p interface{}) error { return dsn.ParseSimple(text, p) })
+	g.o.Case(6, sx.L{sx.I(int64(k)), valsTree(init), tl}, out, tag)
+}
+
+// ---------------------------------------------------------------- alphabets
+func isPlain(r rune) bool { return strconv.IsPrint(r) && r != '"' && r != '\'' && r != '\\' }
+
+var plainPool []rune
+
+func init() {
+	cand := []rune("  =abzAZ09.,;:!?#$%&()*+-/<>@[]^_`{|}~éßñ€ΩЖשع漢字かな한😀𝔘🜁¡¿×÷")
+	for _, c := range cand {
+		if isPlain(c) {
+			plainPool = append(plainPool, c)
+		}
+	}
+}
+
+func (g *gen) plainString(max int) string {
+	n := g.r.Intn(max + 1)
+	var b []rune
+	mode := g.r.Intn(4)
+	for i := 0; i < n; i++ {
+		switch {
+		case mode == 0 && g.r.Intn(3) == 0:
+			b = append(b, ' ')
+		case mode == 1 && g.r.Intn(4) == 0:
+			b = append(b, '=')
+		case mode == 3:
+			// any plain code point
+			for {
+				c := rune(g.r.Intn(0x30000))
+				if g.r.Intn(3) == 0 {
+					c = rune(0x20 + g.r.Intn(0x60))
+				}
+				if isPlain(c) {
+					b = append(b, c)
+					break
+				}
+			}
+		default:
+			b = append(b, plainPool[g.r.Intn(len(plainPool))])
+		}
+	}
+	return string(b)
+}
+
+var plainBoundary = []string{"", " ", "  ", "   ", " a", "a ", "  a", "a  ", " a ", "a b", "a  b", "a   b", " a  b ", "  a   b  c  ",
+	"=", "==", "a=b", "=a", "a=", " = ", "= ", " =", "a = b", "k=v w=x", "host=x", "x port=1", "x  port=1  ", "a= b", "a =b",
+	"é €", " 漢 字 ", "😀", "a\u00e9=\u20ac ", "true", "false", "0", "-1", "://", "a://b", "?a=b&c=d", "%20", "a+b", "#frag", "\u00a1 \u00bf"}
+
+func (g *gen) anyString(max int) string {
+	n := g.r.Intn(max + 1)
+	var b []rune
+	special := []rune("%&=?#/:@ '\"+;\\\x00\n\t\x7f\u00a0\u2028\ufeff\ufffd")
+	for i := 0; i < n; i++ {
+		switch g.r.Intn(5) {
+		case 0:
+			b = append(b, special[g.r.Intn(len(special))])
+		case 1:
+			b = append(b, rune('a'+g.r.Intn(26)))
+		case 2:
+			c := rune(g.r.Intn(0x110000))
+			if c >= 0xD800 && c <= 0xDFFF {
+				c = 0x10FFFF
+			}
+			b = append(b, c)
+		case 3:
+			b = append(b, rune(0x10000+g.r.Intn(0x100000)))
+		default:
+			b = append(b, rune(g.r.Intn(0x800)))
+		}
+	}
+	return string(b)
+}
+
+var anyBoundary = []string{"", " ", "%", "%%", "%2", "%zz", "%41", "&", "=", "?", "#", "/", ":", "@", "a b", " a ", "a@b", "a:b", "a/b", "a?b", "a#b",
+	"a&b=c", "a=b", "\"", "'", "\\", "+", "a+b", ";", "a;b", "\x00", "\n", "\u00e9", "\u20ac", "\U0001F600", "\U0010FFFF", "\ufffd", "//", "://", "x://y", "[::1]", "%25", "\u00a0"}
+
+var schemePool = []string{"", "ase", "tds+x", "A1.b-c"}
+
+// members whose text must be acceptable to net/url as is: host (0), port (1), KeyInfo.Scheme (5)
+func restricted(k, i int) []string {
+	switch {
+	case i == 0:
+		return hostPool
+	case i == 1:
+		return portPool
+	case k == 3 && i == 5:
+		return schemePool
+	}
+	return nil
+}
+
+var hostPool = []string{"", "h", "host", "a.b.c.d", "srv-1.example.org", "10.0.0.1", "H-0"}
+var portPool = []string{"", "0", "1", "443", "5000", "65535", "007"}
+var intPool = []int64{0, 1, -1, 7, 10, -10, 50, 100, 65535, math.MaxInt32, math.MinInt32, math.MaxInt64, math.MinInt64, math.MaxInt64 - 1, math.MinInt64 + 1}
+
+func (g *gen) randVals(k int, str func() string, uri bool) []val {
+	vs := zeroVals(k)
+	for i := range vs {
+		switch vs[i].kind {
+		case 0:
+			if g.r.Intn(4) != 0 {
+				vs[i].s = str()
+			}
+			if pool := restricted(k, i); uri && pool != nil {
+				vs[i].s = pool[g.r.Intn(len(pool))]
+			}
+		case 1:
+			vs[i].b = g.r.Bool()
+		case 2:
+			if g.r.Bool() {
+				vs[i].n = intPool[g.r.Intn(len(intPool))]
+			} else {
+				vs[i].n = int64(g.r.U64()) >> uint(g.r.Intn(64))
+			}
+		}
+	}
+	return vs
+}
+
+// ---------------------------------------------------------------- case generation
+func (g *gen) roundTrips(thorough bool) {
+	// simple form: one member at a boundary value, others zero
+	for k := 0; k < nKinds; k++ {
+		z := zeroVals(k)
+		g.fn23(k, z, "simple-zero")
+		for i := range z {
+			switch z[i].kind {
+			case 0:
+				for _, s := range plainBoundary {
+					vs := zeroVals(k)
+					vs[i].s = s
+					g.fn23(k, vs, "simple-boundary")
+				}
+			case 1:
+				vs := zeroVals(k)
+				vs[i].b = true
+				g.fn23(k, vs, "simple-bool")
+			case 2:
+				for _, n := range intPool {
+					vs := zeroVals(k)
+					vs[i].n = n
+					g.fn23(k, vs, "simple-int")
+				}
+			}
+		}
+		// every member the same boundary value
+		for _, s := range plainBoundary {
+			vs := zeroVals(k)
+			for i := range vs {
+				vs[i].s = s
+				vs[i].b = len(s)%2 == 1
+				vs[i].n = int64(len(s)) - 2
+			}
+			g.fn23(k, vs, "simple-boundary-all")
+		}
+	}
+	n := 6000
+	if thorough {
+		n = 120000
+	}
+	for j := 0; j < n; j++ {
+		k := g.r.Intn(nKinds)
+		max := 12
+		if j%10 == 0 {
+			max = 60
+		}
+		g.fn23(k, g.randVals(k, func() string { return g.plainString(max) }, false), "simple-random")
+	}
+	// URI form
+	for k := 0; k < nKinds; k++ {
+		g.fn4(k, zeroVals(k), "uri-zero")
+		z := zeroVals(k)
+		for i := range z {
+			switch z[i].kind {
+			case 0:
+				pool := anyBoundary
+				if rp := restricted(k, i); rp != nil {
+					pool = rp
+				}
+				for _, s := range pool {
+					vs := zeroVals(k)
+					vs[i].s = s
+					g.fn4(k, vs, "uri-boundary")
+					// with the other credentials / host present
+					vs = zeroVals(k)
+					vs[0].s, vs[1].s, vs[2].s, vs[3].s = "h", "1", "u", "p"
+					vs[i].s = s
+					g.fn4(k, vs, "uri-boundary")
+				}
+			case 1:
+				vs := zeroVals(k)
+				vs[i].b = true
+				g.fn4(k, vs, "uri-bool")
+			case 2:
+				for _, n := range intPool {
+					vs := zeroVals(k)
+					vs[i].n = n
+					g.fn4(k, vs, "uri-int")
+				}
+			}
+		}
+		// user / password presence matrix
+		for _, u := range []string{"", "u", " ", ":", "@", "u:p", "é"} {
+			for _, pw := range []string{"", "p", " ", ":", "@", "p@h:1/?a=b", "\U0001F600"} {
+				vs := zeroVals(k)
+				vs[0].s, vs[1].s, vs[2].s, vs[3].s = "h", "1", u, pw
+				g.fn4(k, vs, "uri-userinfo")
+				vs = zeroVals(k)
+				vs[2].s, vs[3].s = u, pw
+				g.fn4(k, vs, "uri-userinfo")
+			}
+		}
+	}
+	n = 6000
+	if thorough {
+		n = 120000
+	}
+	for j := 0; j < n; j++ {
+		k := g.r.Intn(nKinds)
+		if k == 3 && g.r.Intn(3) != 0 {
+			k = g.r.Intn(3)
+		}
+		max := 10
+		if j%10 == 0 {
+			max = 50
+		}
+		g.fn4(k, g.randVals(k, func() string { return g.anyString(max) }, true), "uri-random")
+	}
+}
+
+var boolWords = []string{"1", "t", "T", "TRUE", "true", "True", "0", "f", "F", "FALSE", "false", "False",
+	"", "yes", "no", "tRUE", "TRue", "2", "-1", "01", "true ", " true", "truee", "on", "Y"}
+var intWords = []string{"0", "1", "-1", "+5", "-0", "+0", "007", "-007", "9223372036854775807", "9223372036854775808", "-9223372036854775808",
+	"-9223372036854775809", "18446744073709551616", "99999999999999999999999", "", "-", "+", "--1", "+-1", "1_000", "0x10", "0b1", "0o7", "1e3", "1.0", " 1", "1 ", "１２", "1a", "a"}
+var strWords = []string{"", "x", "a b", " a", "a ", "  ", "a  b", "a   b  c", " a  b ", "=", "a=b", "k=v w=x", "é €", "x=1 y=2", "\t", "a\u00a0b", "\u3000"}
+
+func (g *gen) wordsFor(kind int) []string {
+	switch kind {
+	case 1:
+		return boolWords
+	case 2:
+		return intWords
+	}
+	return strWords
+}
+
+func okBare(s string) bool { return !strings.ContainsAny(s, " '\"") }
+
+func (g *gen) randTok(k int, keys []string, di map[string]int, ls []leaf) tok {
+	key := keys[g.r.Intn(len(keys))]
+	kind := ls[di[key]].kind
+	ws := g.wordsFor(kind)
+	v := ws[g.r.Intn(len(ws))]
+	if kind == 0 && g.r.Bool() {
+		v = g.plainString(10)
+	}
+	if kind == 2 && g.r.Bool() {
+		v = strconv.FormatInt(int64(g.r.U64())>>uint(g.r.Intn(64)), 10)
+	}
+	style := g.r.Intn(3)
+	if style == 0 && !okBare(v) {
+		style = 1 + g.r.Intn(2)
+	}
+	return tok{key, style, v}
+}
+
+func (g *gen) structured(thorough bool) {
+	for k := 0; k < nKinds; k++ {
+		ls := leaves(newStruct(k))
+		di := declIndex(k)
+		var keys []string
+		for key := range di {
+			keys = append(keys, key)
+		}
+		sort.Strings(keys)
+		// every alias, every style, every word of its kind
+		for _, key := range keys {
+			for _, w := range g.wordsFor(ls[di[key]].kind) {
+				for style := 0; style < 3; style++ {
+					if style == 0 && !okBare(w) {
+						continue
+					}
+					g.fn6(k, nil, []tok{{key, style, w}}, "alias")
+				}
+			}
+		}
+		// later occurrence of a key or of an alias of the same member wins
+		for _, k1 := range keys {
+			for _, k2 := range keys {
+				if di[k1] != di[k2] {
+					continue
+				}
+				ws := g.wordsFor(ls[di[k1]].kind)
+				for j := 0; j < 3; j++ {
+					v1, v2 := ws[g.r.Intn(6)], ws[g.r.Intn(6)]
+					if j == 0 {
+						v1, v2 = ws[0], ws[7%len(ws)]
+						if ls[di[k1]].kind == 1 {
+							v2 = ws[6]
+						}
+						if ls[di[k1]].kind == 2 {
+							v2 = ws[1]
+						}
+					}
+					other := g.randTok(k, keys, di, ls)
+					for di[other.key] == di[k1] {
+						other = g.randTok(k, keys, di, ls)
+					}
+					s1, s2 := 1+g.r.Intn(2), 1+g.r.Intn(2)
+					g.fn6(k, nil, []tok{{k1, s1, v1}, {k2, s2, v2}}, "later-wins")
+					g.fn6(k, nil, []tok{{k1, s1, v1}, other, {k2, s2, v2}}, "later-wins")
+					g.fn6(k, nil, []tok{{k2, s2, v2}, other, {k1, s1, v1}, other}, "later-wins")
+				}
+			}
+		}
+		// keys that name no member
+		unknown := []string{"nokey", "Host", "HOST", "hostx", "hos", "host-", "-", "x", "database2", "d", "key", "KEY", "scheme", "json", "multiref", "é", "ho\u0073t\u0301"}
+		for _, uk := range unknown {
+			if _, ok := di[uk]; ok {
+				continue
+			}
+			for style := 0; style < 3; style++ {
+				g.fn6(k, nil, []tok{{uk, style, "v"}}, "unknown-key")
+				g.fn6(k, nil, []tok{{keys[0], 1, "x"}, {uk, style, "v"}}, "unknown-key")
+				g.fn6(k, nil, []tok{{uk, style, "v"}, {keys[0], 1, "x"}}, "unknown-key")
+			}
+		}
+		// the empty key names no member (regression for fix a412744)
+		for style := 0; style < 3; style++ {
+			for _, w := range []string{"x", "true", "1", ""} {
+				g.fn6(k, nil, []tok{{"", style, w}}, "emptykey")
+				g.fn6(k, nil, []tok{{keys[0], 1, "x"}, {"", style, w}}, "emptykey")
+			}
+		}
+		n := 2500
+		if thorough {
+			n = 40000
+		}
+		for j := 0; j < n; j++ {
+			cnt := 1 + g.r.Intn(6)
+			var toks []tok
+			for c := 0; c < cnt; c++ {
+				toks = append(toks, g.randTok(k, keys, di, ls))
+			}
+			init := zeroVals(k)
+			if g.r.Intn(3) == 0 {
+				init = g.randVals(k, func() string { return g.plainString(6) }, false)
+			}
+			g.fn6(k, init, toks, "tokens-random")
+		}
+	}
+}
+
+var hostile = []string{"'", "\"", " ", "=", "a", "b", "://", "?", "&", "%", "\\", "-"}
+
+func (g *gen) enumerate(maxLen int, f func(s string)) {
+	var rec func(prefix string, n int)
+	rec = func(prefix string, n int) {
+		f(prefix)
+		if n == 0 {
+			return
+		}
+		for _, h := range hostile {
+			rec(prefix+h, n-1)
+		}
+	}
+	rec("", maxLen)
+}
+
+var fragments = []string{"host", "hostname", "port", "user", "username", "password", "pass", "db", "database", "a", "aa", "b", "count", "n", "v", "t",
+	"tls-enable", "packet-read-timeout", "=", "=", "=", "\"", "\"", "'", "'", " ", " ", "  ", "=\"", "='", "\" ", "' ", "x", "1", "true", "-5", "://", "?", "&", "%", "%2", "%41", "\\", "-", "@", ":", "/", "#", ";", "+", "é", "\t", "\n"}
+
+func (g *gen) randHostile() string {
+	n := 1 + g.r.Intn(40)
+	var b strings.Builder
+	for i := 0; i < n; i++ {
+		if g.r.Intn(3) == 0 {
+			b.WriteString(hostile[g.r.Intn(len(hostile))])
+		} else {
+			b.WriteString(fragments[g.r.Intn(len(fragments))])
+		}
+	}
+	return b.String()
+}
+
+func (g *gen) totality(thorough bool) {
+	n1, n5 := 4, 4
+	if thorough {
+		n1, n5 = 6, 5
+	}
+	g.enumerate(n1, func(s string) { g.fn1(2, s, nil, "total-enum") })
+	g.enumerate(3, func(s string) { g.fn1(0, s, nil, "total-enum"); g.fn1(1, s, nil, "total-enum") })
+	g.enumerate(n5, func(s string) { g.fn5(2, s, "total-enum") })
+	g.enumerate(3, func(s string) { g.fn5(0, s, "total-enum") })
+	// hand-picked
+	picked := []string{`host="a`, `host="`, `host=" x"`, `host='`, `host=''`, `host='a`, `host="a'`, `host='a"`, `host=" `, `host="  `, `host=" "`, `host="" `, ` host=x`, `host=x `,
+		`host=x  port=1`, `host`, `=`, `==`, `="`, `="" `, `=''`, `a="`, `a=" "`, `a="b" "`, `a="b"c"`, `a='b' b="`, `a="'b'"`, `a='"b"'`, `a=''b''`, `a=b=c`, `a=b="c`, `a=b="c d"`,
+		`b=true b=x`, `count=1 count=`, `count="1"`, `count='-1'`, `count=" 1"`, `b="true"`, `b=" true"`, `a="x" a='y' aa=z`, `a=="x"`, `a= "x"`, `a ="x"`, `"a"="x"`, `a="x y" `, `a="x  y"`, `a="  x"`, `a="x  "`}
+	for _, s := range picked {
+		for k := 0; k < nKinds; k++ {
+			g.fn1(k, s, nil, "total-picked")
+			g.fn5(k, s, "total-picked")
+		}
+	}
+	n := 20000
+	if thorough {
+		n = 300000
+	}
+	for j := 0; j < n; j++ {
+		k := g.r.Intn(nKinds)
+		s := g.randHostile()
+		if !validText(s) {
+			continue
+		}
+		var init []val
+		if j%5 == 0 {
+			init = g.randVals(k, func() string { return g.plainString(5) }, false)
+		}
+		g.fn1(k, s, init, "total-random")
+		g.fn5(k, s, "total-random")
+	}
+}
+
+// structured URIs written by net/url (independent of FormatURI) and some hand-written ones
+func (g *gen) uris(thorough bool) {
+	hand := []string{"x://h:1/?a=1&a=2", "x://h:1/?a=2&a=1", "x://u@h", "x://:p@h", "x://u:@h", "x://:@h", "x://@h", "x://h/dbname", "x://h/db/sub", "x://h//db", "x://h",
+		"x://h:1", "x://h:/", "x://:1/", "x://[::1]:5000/", "x://h:1/?database=d", "x://h:1/db?database=d", "x://h:1/?db=d&db=e", "x://h:1/?nokey=1", "x://h:1/?=z", "x://h:1/?a", "x://h:1/?a=",
+		"x://h:1/?a=%41%20b", "x://h:1/?a=%zz", "x://h:1/?a=1;b=2", "x://h:1/?b=true&count=5", "x://h:1/?b=maybe", "x://h:1/?count=x", "x://h:1/?count=9223372036854775808",
+		"x://h:tls/", "x://u:p@h:1/?a=b#frag", "://?KEY=k&database=d", "x://?KEY=k&database=d", "//u:p@h:1/?database=d", "x://u%20v:p%2Fw@h/", "x://h:1/?a=b&&a=c", "x://h:1/?a=b&=c",
+		"x://h:1/?tls-enable=true&packet-read-timeout=7", "x://h:1/?tls-enable=1&tls-enable=0", "x:// h", "x://h\x7f", "x://%41", "x://h:1/%2F", "x://h:1/?a=+", "x://h:1/?a=%2B"}
+	for _, s := range hand {
+		for k := 0; k < nKinds; k++ {
+			g.fn5(k, s, "uri-hand")
+		}
+	}
+	n := 4000
+	if thorough {
+		n = 60000
+	}
+	for j := 0; j < n; j++ {
+		k := g.r.Intn(nKinds)
+		ls := leaves(newStruct(k))
+		di := declIndex(k)
+		var keys []string
+		for key := range di {
+			keys = append(keys, key)
+		}
+		sort.Strings(keys)
+		u := &url.URL{Scheme: "ase", Host: hostPool[g.r.Intn(len(hostPool))], Path: "/"}
+		if g.r.Bool() {
+			u.Host += ":" + portPool[g.r.Intn(len(portPool))]
+		}
+		switch g.r.Intn(4) {
+		case 0:
+			u.User = url.User(g.anyString(6))
+		case 1, 2:
+			u.User = url.UserPassword(g.anyString(6), g.anyString(6))
+		}
+		if g.r.Intn(3) == 0 {
+			u.Path = "/" + g.anyString(6)
+		}
+		q := url.Values{}
+		used := map[int]string{}
+		cnt := g.r.Intn(5)
+		tag := "uri-structured"
+		for c := 0; c < cnt; c++ {
+			key := keys[g.r.Intn(len(keys))]
+			if g.r.Intn(12) == 0 {
+				key = []string{"nokey", "", "Host", "x y"}[g.r.Intn(4)]
+				tag = "uri-unknown-key"
+				if key == "" {
+					tag = "emptykey"
+				}
+			}
+			if i, ok := di[key]; ok {
+				if prev, seen := used[i]; seen && prev != key {
+					continue // a different alias of the same member: result would depend on map order
+				}
+				used[i] = key
+			}
+			reps := 1 + g.r.Intn(3)
+			for rep := 0; rep < reps; rep++ {
+				kind := 0
+				if i, ok := di[key]; ok {
+					kind = ls[i].kind
+				}
+				ws := g.wordsFor(kind)
+				v := ws[g.r.Intn(len(ws))]
+				if kind == 0 && g.r.Bool() {
+					v = g.anyString(8)
+				}
+				q.Add(key, v)
+				if rep > 0 && tag == "uri-structured" {
+					tag = "uri-repeated-key"
+				}
+			}
+		}
+		g.fn5(k, u.String()+"?"+q.Encode(), tag)
+	}
+}
+
 func main() {
-	gen := flag.String("gen", "", "write GenC17.v here")
+	genPath := flag.String("gen", "", "write GenC17.v here")
 	out := flag.String("out", "", "write case file here")
 	tier := flag.String("tier", "quick", "quick|thorough")
 	flag.Parse()
-	if *gen != "" {
-		writeGen(*gen)
+	if *genPath != "" {
+		writeGen(*genPath)
 	}
-	_ = out
-	_ = tier
+	if *out == "" {
+		return
+	}
+	g := &gen{o: sx.NewOut(*out), r: sx.NewRng(sx.EnvSeed())}
+	thorough := *tier == "thorough"
+	g.roundTrips(thorough)
+	g.structured(thorough)
+	g.uris(thorough)
+	g.totality(thorough)
+	g.o.Close()
+	fmt.Printf("c17: %d cases, %d URI inputs skipped (two aliases of one member in the query)\n", g.o.N, g.skipped)
+	_ = reflect.TypeOf
 }
